@@ -162,6 +162,7 @@ def run(ctx):
             data, scal = runlib.gen_inputs(spec, ext, rng, density=rng.choice([1.0, 0.6]))
             meta = {"kind": it["kind"], "spacetime": sts, "well_ordered": wo, "paired": paired, "item": k}
             c = execlib.Case(spec, text, ext, data, scal, extra_ints=it["syms"], meta=meta)
+            c.plain = (it["plain_yaml"], b[1], it["syms"]) if b[0] == "T" else None
             cases.append(c)
             if paired:
                 pspec = runlib.Spec(it["plain_yaml"])
@@ -169,6 +170,21 @@ def run(ctx):
                 cases.append(c.twin)
                 stats["paired_executions"] += 1
     execlib.evaluate(cases, "c16")
+    # an unpaired program (its computation text equals the one compiled without the spacetime) whose result differs from the oracle:
+    # execute the program without the spacetime on the same inputs before blaming the display (a wrong result both programs share is
+    # C01-C04's business, not this property's)
+    late = []
+    for c in cases:
+        if c.meta.get("twin") or c.meta["paired"] or c.plain is None:
+            continue
+        r = c.result
+        if r["status"] == "RAN" and (r["out"] != "OK" or r["inp"] != "OK"):
+            c.twin = execlib.Case(runlib.Spec(c.plain[0]), c.plain[1], c.extents, c.data, c.scal, extra_ints=c.plain[2], meta={"kind": c.meta["kind"], "twin": True})
+            c.meta["paired"] = True
+            late.append(c.twin)
+    if late:
+        execlib.evaluate(late, "c16late")
+        stats["paired_executions"] += len(late)
     nact = 0
     failed_items = set()
     for c in cases:
